@@ -78,6 +78,7 @@ type sdFam struct {
 	rng     *rand.Rand
 	honest  string
 	mode    string
+	curX    M // extras of the event being recorded (Project adds the query cross-check to it)
 	queue   []M
 	hwin    map[string]int64 // honest prover: fid key -> window index of last accepted proof
 	doms    []string
@@ -260,6 +261,7 @@ func (f *sdFam) Apply(st M) M {
 	k := f.c.App.StorageKeeper
 	x := M{}
 	ev["x"] = x
+	f.curX = x
 	switch a {
 	case "block":
 		// gauge accounts may have been removed from the gauge list by the block itself: measure via label
@@ -468,8 +470,86 @@ func sortRecs(l []interface{}) {
 	})
 }
 
+type marshaler interface{ Marshal() ([]byte, error) }
+
+func sameMsg(a, b marshaler) bool {
+	x, e1 := a.Marshal()
+	y, e2 := b.Marshal()
+	return e1 == nil && e2 == nil && bytes.Equal(x, y)
+}
+
+// queryCheck compares the public gRPC query methods with the keeper getters: every file must be found by
+// either route (AllFiles, AllFilesByOwner, File) and every listed prover's proof record through Proof and
+// ProofsByAddress. Returns a list of discrepancies (empty when consistent).
+func (f *sdFam) queryCheck() []interface{} {
+	k := f.c.App.StorageKeeper
+	g := sdk.WrapSDKContext(f.ctx)
+	bad := []interface{}{}
+	key := func(uf stypes.UnifiedFile) string { return fmt.Sprintf("%x/%s/%d", uf.Merkle, uf.Owner, uf.Start) }
+	byM := map[string]stypes.UnifiedFile{}
+	for _, uf := range k.GetAllFileByMerkle(f.ctx) {
+		byM[key(uf)] = uf
+	}
+	all, err := k.AllFiles(g, &stypes.QueryAllFiles{})
+	if err != nil || len(all.Files) != len(byM) {
+		bad = append(bad, "AllFiles size")
+	} else {
+		for _, uf := range all.Files {
+			if o, ok := byM[key(uf)]; !ok || !sameMsg(&o, &uf) {
+				bad = append(bad, "AllFiles content "+key(uf))
+			}
+		}
+	}
+	perOwner := map[string]int{}
+	for _, uf := range byM {
+		perOwner[uf.Owner]++
+		r, err := k.File(g, &stypes.QueryFile{Merkle: uf.Merkle, Owner: uf.Owner, Start: uf.Start})
+		if err != nil || !sameMsg(&r.File, &uf) {
+			bad = append(bad, "File "+key(uf))
+		}
+		for _, pk := range uf.Proofs {
+			prover := strings.Split(pk, "/")[0]
+			pr, err := k.Proof(g, &stypes.QueryProof{ProviderAddress: prover, Merkle: uf.Merkle, Owner: uf.Owner, Start: uf.Start})
+			if err != nil || pr.Proof.Prover != prover || string(pr.Proof.Merkle) != string(uf.Merkle) || pr.Proof.Owner != uf.Owner || pr.Proof.Start != uf.Start {
+				bad = append(bad, "Proof "+pk)
+				continue
+			}
+			pa, err := k.ProofsByAddress(g, &stypes.QueryProofsByAddress{ProviderAddress: prover})
+			found := false
+			if err == nil {
+				for _, q := range pa.Proofs {
+					if sameMsg(&q, &pr.Proof) {
+						found = true
+					}
+				}
+			}
+			if !found {
+				bad = append(bad, "ProofsByAddress "+pk)
+			}
+		}
+	}
+	for _, l := range f.owners {
+		o := f.c.Acct(l).S()
+		r, err := k.AllFilesByOwner(g, &stypes.QueryAllFilesByOwner{Owner: o})
+		if err != nil || len(r.Files) != perOwner[o] {
+			bad = append(bad, "AllFilesByOwner size "+l)
+			continue
+		}
+		for _, uf := range r.Files {
+			if m, ok := byM[key(uf)]; !ok || !sameMsg(&m, &uf) {
+				bad = append(bad, "AllFilesByOwner content "+key(uf))
+			}
+		}
+	}
+	return bad
+}
+
 func (f *sdFam) Project() M {
 	k := f.c.App.StorageKeeper
+	if f.curX != nil {
+		f.curX["qbad"] = f.queryCheck()
+		f.curX = nil
+	}
 	files, filesO, proofs := []interface{}{}, []interface{}{}, []interface{}{}
 	for _, uf := range k.GetAllFileByMerkle(f.ctx) {
 		files = append(files, f.fileRec(uf))
